@@ -53,6 +53,25 @@ func cmdRun(args []string) {
 		os.Exit(2)
 	}
 	fmt.Printf("loaded in %v, %d harnesses\n", time.Since(t0), len(P.harnesses))
+	if os.Getenv("SYMGO_SITES") != "" {
+		querySites = map[string]int{}
+		defer func() {
+			type kv struct {
+				k string
+				v int
+			}
+			var l []kv
+			for k, v := range querySites {
+				l = append(l, kv{k, v})
+			}
+			sort.Slice(l, func(i, j int) bool { return l[i].v > l[j].v })
+			for i, e := range l {
+				if i < 25 {
+					fmt.Printf("%8d %s\n", e.v, e.k)
+				}
+			}
+		}()
+	}
 	re := regexp.MustCompile(*pat)
 	var names []string
 	for n := range P.harnesses {
